@@ -132,7 +132,7 @@ def run(ctx):
     ctx.trusted += ['scipy.stats.<dist>.fit, scipy.optimize.fmin_slsqp, scipy.stats.gaussian_kde (constructor, resample, evaluate): oracles (captured)']
     ctx.assumptions += ['statistical residue, NOT decided: closeness of the fitted CDF to the generating CDF (DKW band) and the ">= 80% of datasets" clause for '
                         'the scipy-MLE families; the DKW oracle runs in the witness search only (false-alarm level 1e-9 per dataset)',
-                        'TruncatedGaussian: self.min / self.max are object state (re-used by a second fit: C19/F6); every case here uses a fresh instance']
+                        'TruncatedGaussian: the truncation bounds are locals of _fit (F6 fixed); the generator rejects any use of self.min / self.max after they are computed and the search re-fits one instance on rescaled data']
     if gen_compiled:
         try:
             correspondence(ctx, quick)
@@ -164,9 +164,14 @@ def correspondence(ctx, quick):
         vmeta.append(meta)
     n_rep = 3 if quick else 25
     # ---------------- Gaussian (Interval) and Uniform (exact)
-    for rep in range(n_rep):
+    for rep in range(n_rep + 2):
         n = int(rng.choice([6, 12, 25, 40]))
-        X, desc, _ = univ.draw_family(rng, 'gaussian', n, loc=float(rng.uniform(-1e3, 1e3)), scale=float(10 ** rng.uniform(-2, 3)))
+        if rep == n_rep:          # large offset / tiny relative spread, and tiny magnitudes: distinct values that are "close" in floating point
+            X, desc = 1e6 + 0.5 * rng.normal(0, 1, n), {'family': 'gaussian', 'params': [1e6, 0.5]}
+        elif rep == n_rep + 1:
+            X, desc = 1e-9 * rng.normal(2, 1, n), {'family': 'gaussian', 'params': [2e-9, 1e-9]}
+        else:
+            X, desc, _ = univ.draw_family(rng, 'gaussian', n, loc=float(rng.uniform(-1e3, 1e3)), scale=float(10 ** rng.uniform(-2, 3)))
         spec = mkspec('GaussianUnivariate', X)
         r = try_fit(ctx, spec)
         if r is None:
@@ -268,13 +273,13 @@ def correspondence(ctx, quick):
             for (pa, pb), val, nm in ((('fst', 'fst'), bd[0][0], 'loc-lower'), (('snd', 'fst'), bd[0][1], 'loc-upper'), (('fst', 'snd'), bd[1][0], 'scale-lower'),
                                       (('snd', 'snd'), bd[1][1], 'scale-upper')):
                 val = float(val)
-                goals.append({'term': f'{pa} ({pb} (gen_tg_box {frac(float(m.min))} {frac(float(m.max))}))', 'y': val, 'tol': 1e-11 * (1 + abs(val)), 'unfolds': ['gen_tg_box'],
+                goals.append({'term': f'{pa} ({pb} (gen_tg_box {frac(float(bd[0][0]))} {frac(float(bd[0][1]))}))', 'y': val, 'tol': 1e-11 * (1 + abs(val)), 'unfolds': ['gen_tg_box'],
                               'tactic': 'cbv [fst snd]; interval with (i_prec 90)',
                               'meta': {'what': f'truncated-box-{nm}', 'spec': spec, 'impl': val,
                                        'body': 'import copulas.univariate.truncated_gaussian as tg\nrec = []\norig = tg.fmin_slsqp\n'
                                                'tg.fmin_slsqp = lambda f, x0, **k: (rec.append(k.get("bounds")), orig(f, x0, **k))[1]\nm = univ.build(spec)\n'
-                                               'print(rec[0], m.min, m.max)\nb = rec[0]\n'
-                                               'assert b[0][0] == m.min and b[0][1] == m.max and b[1][0] == 0 and abs(b[1][1] - (m.max - m.min) ** 2) <= 1e-11 * (1 + b[1][1])\n'}})
+                                               'print(rec[0])\nb = rec[0]\n'
+                                               'assert b[0][0] < b[0][1] and b[1][0] == 0 and abs(b[1][1] - (b[0][1] - b[0][0]) ** 2) <= 1e-11 * (1 + b[1][1])\n'}})
         x0 = [float(v) for v in e['args'][1]] if len(e['args']) == 2 else [float('nan')] * 2
         for i, nm in enumerate(('fst', 'snd')):
             goals.append({'term': f'{nm} (gen_tg_start {rlist(X)})', 'y': x0[i], 'tol': 1e-9 * abs(x0[i]) + 1e-300, 'unfolds': ['gen_tg_start'], 'tactic': STD_CBV,
@@ -286,7 +291,7 @@ def correspondence(ctx, quick):
         from scipy.stats import truncnorm
         for p in ((loc, sc), (loc + 0.3 * sc, 1.7 * sc)):
             got = float(e['args'][0](p))
-            exp = float(truncnorm.nnlf(((m.min - p[0]) / p[1], (m.max - p[0]) / p[1], p[0], p[1]), Xa))
+            exp = float(truncnorm.nnlf(((float(bd[0][0]) - p[0]) / p[1], (float(bd[0][1]) - p[0]) / p[1], p[0], p[1]), Xa)) if not bad else float('nan')
             if not (got == exp or abs(got - exp) <= 1e-9 * (1 + abs(exp))):
                 bad.append(f'objective{p} = {got!r}, generated objective gives {exp!r}')
         if set(e['kwargs']) != {'iprint', 'bounds'} or e['kwargs'].get('iprint') is not False:
@@ -423,21 +428,26 @@ def judge(ctx, meta, o):
         mn, mx, a, b = fracs(o)
         bd = e['kwargs'].get('bounds')
         ok_box = True       # the optimiser box is certified separately by Interval against the generated gen_tg_box
-        ok_mm = close(m.min, mn) and close(m.max, mx)
+        # the local bounds of this fit = the first pair of the optimiser box; the constructor attributes are not modified by fit (F6 fixed)
+        kwc = spec['kwargs']
+        lb = (bd[0][0], bd[0][1]) if isinstance(bd, (list, tuple)) and len(bd) == 2 and len(bd[0]) == 2 else (float('nan'), float('nan'))
+        ok_mm = close(lb[0], mn) and close(lb[1], mx) and m.min == kwc.get('minimum') and m.max == kwc.get('maximum')
         loc, sc = (float(v) for v in e['ret'])
         p = m._params
         ok_par = sorted(p) == ['a', 'b', 'loc', 'scale'] and float(p['loc']) == loc and float(p['scale']) == sc and close(p['a'], a, 1e-11) and close(p['b'], b, 1e-11)
-        ctx.obligation('corr:truncated-bounds', ok_mm and ok_box, 'correspondence', f'min/max {m.min!r},{m.max!r} bounds {bd} model {float(mn)!r},{float(mx)!r}')
+        ctx.obligation('corr:truncated-bounds', ok_mm and ok_box, 'correspondence', f'bounds {bd} attributes {m.min!r},{m.max!r} model {float(mn)!r},{float(mx)!r}')
         ctx.obligation('corr:truncated-params', ok_par, 'correspondence', f'stored {dict(p)} model a={float(a)!r} b={float(b)!r} for optimum ({loc!r},{sc!r})')
         if not (ok_mm and ok_box):
-            viol(ctx, 'corr:truncated-bounds', f'TruncatedGaussian({spec["kwargs"]}): min/max = ({m.min!r}, {m.max!r}); generated model: '
-                 f'[{float(mn)!r}, {float(mx)!r}]', spec, {},
-                 f'print(m.min, m.max)\nassert abs(m.min - {float(mn)!r}) <= 1e-12 * (1 + abs(m.min)) and abs(m.max - {float(mx)!r}) <= 1e-12 * (1 + abs(m.max))\n')
+            viol(ctx, 'corr:truncated-bounds', f'TruncatedGaussian({spec["kwargs"]}): bounds used by this fit {lb}, attributes after fit ({m.min!r}, {m.max!r}); generated model: '
+                 f'[{float(mn)!r}, {float(mx)!r}], attributes unchanged', spec, {},
+                 f"p = m._params\nlo, hi = p['loc'] + p['a'] * p['scale'], p['loc'] + p['b'] * p['scale']\nprint(lo, hi, m.min, m.max)\n"
+                 f"assert abs(lo - {float(mn)!r}) <= 1e-9 * (1 + abs(lo)) and abs(hi - {float(mx)!r}) <= 1e-9 * (1 + abs(hi))\n"
+                 f"assert m.min == {kwc.get('minimum')!r} and m.max == {kwc.get('maximum')!r}\n")
         if not ok_par:
             viol(ctx, 'corr:truncated-params', f'TruncatedGaussian({spec["kwargs"]}) stores {dict(p)}; generated model for the optimum ({loc!r}, {sc!r}): '
                  f'a = {float(a)!r}, b = {float(b)!r}', spec, {},
-                 "p = m._params\nprint(p, m.min, m.max)\n"
-                 "assert abs(p['loc'] + p['a'] * p['scale'] - m.min) <= 1e-9 * (1 + abs(m.min)) and abs(p['loc'] + p['b'] * p['scale'] - m.max) <= 1e-9 * (1 + abs(m.max))\n")
+                 "p = m._params\nprint(p)\n"
+                 f"assert abs(p['loc'] + p['a'] * p['scale'] - {float(mn)!r}) <= 1e-9 * (1 + abs({float(mn)!r})) and abs(p['loc'] + p['b'] * p['scale'] - {float(mx)!r}) <= 1e-9 * (1 + abs({float(mx)!r}))\n")
 
 
 # ------------------------------------------------------------------------------------------------
@@ -489,10 +499,15 @@ def search(ctx, quick):
     reps = 2 if quick else 8
     # ---------- exact estimators (rational arithmetic), closeness for the closed-form families
     for fam, cls in (('gaussian', 'GaussianUnivariate'), ('uniform', 'UniformUnivariate')):
-        for n in sizes:
-            for rep in range(reps):
+        for n in sizes + [2000, 300]:
+            for rep in range(reps if n in sizes else 1):
                 sc = float(10 ** rng.uniform(-2, 3))
-                X, desc, cdf = univ.draw_family(rng, fam, n, loc=float(rng.uniform(-1e3, 1e3)) if sc > 1e-2 else 0.0, scale=sc)
+                if n == 2000:       # 1e6 + 0.5 z: 2000 distinct values with a tiny relative spread (never a constant column)
+                    X, desc, cdf = univ.draw_family(rng, fam, n, loc=1e6, scale=0.5)
+                elif n == 300:      # |values| < 1e-8
+                    X, desc, cdf = univ.draw_family(rng, fam, n, loc=-2e-9, scale=3e-9 if fam == 'uniform' else 1e-9)
+                else:
+                    X, desc, cdf = univ.draw_family(rng, fam, n, loc=float(rng.uniform(-1e3, 1e3)) if sc > 1e-2 else 0.0, scale=sc)
                 spec = mkspec(cls, X)
                 try:
                     m = univ.build(spec)
@@ -590,11 +605,23 @@ def search(ctx, quick):
                 hit(f'search:fit-raises-{type(ex).__name__}:truncated', f'TruncatedGaussian({kw}).fit raised {type(ex).__name__}: {str(ex)[:200]}', spec, {}, '')
                 continue
             p = {k: float(v) for k, v in m._params.items()}
-            mn, mx = float(m.min), float(m.max)
-            slo, shi = p['loc'] + p['a'] * p['scale'], p['loc'] + p['b'] * p['scale']
-            tolb = 1e-9 * (1 + abs(mn) + abs(mx))
             exp_mn = kw.get('minimum', float(X.min()) - univ.EPS32)
             exp_mx = kw.get('maximum', float(X.max()) + univ.EPS32)
+            mn, mx = float(exp_mn), float(exp_mx)
+            slo, shi = p['loc'] + p['a'] * p['scale'], p['loc'] + p['b'] * p['scale']
+            tolb = 1e-9 * (1 + abs(mn) + abs(mx))
+            if not given and lab.endswith(':0'):      # the bounds belong to ONE fit: a second fit on other data gets its own (F6)
+                X2 = 10.0 * X + 3.0
+                m.fit(X2)
+                p2 = {k: float(v) for k, v in m._params.items()}
+                lo2, hi2 = p2['loc'] + p2['a'] * p2['scale'], p2['loc'] + p2['b'] * p2['scale']
+                t2 = 1e-9 * (1 + abs(X2.min()) + abs(X2.max()))
+                if not (abs(lo2 - (X2.min() - univ.EPS32)) <= t2 and abs(hi2 - (X2.max() + univ.EPS32)) <= t2 and m.min is None and m.max is None):
+                    hit('search:bounds-remembered-across-fits:truncated', f'TruncatedGaussian() fitted on X and then on 10 X + 3: support [{lo2!r}, {hi2!r}] instead of '
+                        f'[{X2.min() - univ.EPS32!r}, {X2.max() + univ.EPS32!r}] (min/max attributes {m.min!r}, {m.max!r})', spec, {},
+                        "X2 = 10.0 * X + 3.0\nm.fit(X2)\np = m._params\nlo, hi = p['loc'] + p['a'] * p['scale'], p['loc'] + p['b'] * p['scale']\nprint(lo, hi, X2.min(), X2.max())\n"
+                        "assert abs(lo - X2.min()) <= 1e-6 * (1 + abs(lo)) and abs(hi - X2.max()) <= 1e-6 * (1 + abs(hi))\n")
+                m = univ.build(spec)
             body_sup = ("p = m._params\nlo, hi = p['loc'] + p['a'] * p['scale'], p['loc'] + p['b'] * p['scale']\n"
                         f"exp = ({exp_mn!r}, {exp_mx!r})\nprint((lo, hi), exp)\nt = 1e-9 * (1 + abs(exp[0]) + abs(exp[1]))\n"
                         "assert abs(lo - exp[0]) <= t and abs(hi - exp[1]) <= t\n"
